@@ -54,6 +54,9 @@ Theorem m2conj_invol a : m2conj (m2conj a) = a.                                 
 Theorem m2norm_trace a : (m2norm a, 0) = m2trace (m2mul a (m2herm a)).            Proof. c_crush. Qed.
 Theorem m2det_herm a : m2det (m2herm a) = cconj (m2det a).                        Proof. c_crush. Qed.
 
+Theorem m2det_scale z a : m2det (m2scale z a) = cmul (cmul z z) (m2det a).             Proof. c_crush. Qed.
+Theorem m2scale_id a : m2scale c1 a = a.                                               Proof. m2_crush. Qed.
+
 Definition cnz (z : C) : Prop := fst z * fst z + snd z * snd z <> 0.
 Lemma cnz_iff z : cnz z <-> z <> c0.
 Proof.
@@ -73,6 +76,29 @@ Proof.
 Qed.
 Theorem cmul_inv z : cnz z -> cmul z (cinv z) = c1.
 Proof. intros H; destruct z as [x y]; unfold cnz in H; cbn [fst snd] in H; apply c_eq; spec_cbv; field; nz_auto. Qed.
+
+Theorem cinv_mul z w : cnz z -> cnz w -> cinv (cmul z w) = cmul (cinv z) (cinv w).
+Proof.
+  intros Hz Hw; destruct z as [a b], w as [c d]; unfold cnz in *; cbn [fst snd] in *.
+  apply c_eq; spec_cbv; field; repeat split; try assumption;
+  replace ((a * c - b * d) * (a * c - b * d) + (a * d + b * c) * (a * d + b * c)) with ((a * a + b * b) * (c * c + d * d)) by ring;
+  apply Rmult_integral_contrapositive_currified; assumption.
+Qed.
+Theorem cmul_comm z w : cmul z w = cmul w z.        Proof. c_crush. Qed.
+Theorem cmul_assoc z w u : cmul (cmul z w) u = cmul z (cmul w u).  Proof. c_crush. Qed.
+Theorem cmul_1_l z : cmul c1 z = z.                 Proof. c_crush. Qed.
+Theorem cnz_mul z w : cnz z -> cnz w -> cnz (cmul z w).
+Proof.
+  intros Hz Hw; destruct z as [a b], w as [c d]; unfold cnz in *; cbn [fst snd cmul] in *.
+  replace ((a * c - b * d) * (a * c - b * d) + (a * d + b * c) * (a * d + b * c)) with ((a * a + b * b) * (c * c + d * d)) by ring.
+  apply Rmult_integral_contrapositive_currified; assumption.
+Qed.
+Theorem cnz_sq_inv z : cnz (cmul z z) -> cnz z.
+Proof.
+  destruct z as [a b]; unfold cnz; cbn [fst snd cmul]. intros H E. apply H.
+  replace ((a * a - b * b) * (a * a - b * b) + (a * b + b * a) * (a * b + b * a)) with ((a * a + b * b) * (a * a + b * b)) by ring.
+  rewrite E; ring.
+Qed.
 
 (* ---- quaternion images ---- *)
 (* Hermitian basis: s0 + s1 sigma1 + s2 sigma2 + s3 sigma3, complex components *)
